@@ -59,6 +59,8 @@ DOCS = [
     {0: {"a": 2, "b": [1]}, "a": 1}, {"a": "s", "b": "t"}, {"a": {"b": [{"a": 3}, {"a": 1}]}}, {"x": "1", "a": {"x": "q"}},
     {"a": {"a": 1, "b": {"a": 1, "b": [0, 0]}}, "b": [{"a": 2}]}, [[{"a": 1}], {"b": [0]}],
     # a list / a mapping with key 1 / a mapping with key 1.0 at the roots
+    # several nodes at a fan-out root, an uncastable string before castable ones
+    {"a": {"x": "q"}, "b": {"x": "5"}, "c": {"x": "7", "a": 1}}, [{"x": "q"}, {"x": "5", "a": 1}, 3, {"x": "8"}],
     [0, 0, "q"], {"a": [5, 0, 7], 1: "q"}, {"a": {1: 0, "a": "x"}, 1.0: 0}, {"a": {"b": ["q", "q"], "a": 12}}, [[1, 0], {"a": 10, 1: "q"}],
 ]
 
@@ -85,6 +87,10 @@ def observe(schema, doc):
 class World:
     def __init__(self):
         self.obj = {k: T.build_schema(("schema", v)) for k, v in INIT.items()}
+        # two schemas built from ONE list object of rules: what one of them receives later is not the other's business
+        shared_list = [T.build_rule(r) for r in INIT["S2"]]
+        self.obj["S2"] = Schema(shared_list)
+        self.twin = Schema(shared_list)
         self.model = dict(INIT)
         self.src_snap = {k: snap(self.obj[k]) for k in SOURCES}
         self.src_obs = {k: [observe(self.obj[k], d) for d in DOCS] for k in SOURCES}
@@ -167,6 +173,11 @@ def run_history(res, hist):
             if [observe(w.obj[k], d) for d in DOCS] != w.src_obs[k]:
                 res.violation("source-behaviour", "source schema %s validates differently after being added" % k, case)
                 return False
+        if len(w.twin.rules) != len(INIT["S2"]) or any(not (a == T.build_rule(b)) for a, b in zip(w.twin.rules, INIT["S2"])):
+            res.violation("twin-changed", "a schema built from the same list object of rules as S2 changed when S2 (or another schema) "
+                          "received rules: %r" % (w.twin.rules,), case, observed=[repr(r) for r in w.twin.rules],
+                          expected=[T.show(r) for r in INIT["S2"]])
+            return False
         # (2) every schema's rule list is the reference list
         for k in TARGETS:
             want = [T.build_rule(r) for r in w.model[k]]
